@@ -550,6 +550,115 @@ theorem registerObject_ok {fuel t object ofields oitems ovalues enc} {st : PStat
         simp [this]
 
 
+/-! ### states INSIDE an unfinished registration
+
+`PState.Le` relates the states before and after a COMPLETE call of `registerNode` (`register_mono`).
+The state `a` in which a NESTED node was registered (a reference in a record field, the items of an
+array, …) and the FINAL state `b` of the document are NOT related by `Le`: the slot of every node
+that encloses the nested one is a placeholder in `a` and is overwritten when the enclosing node is
+completed (`NonVacuityD.le_to_final_state_fails`).  Two weaker relations do reach the final state:
+
+* `a.LeNU b` — the name table and the list of unresolved references only grow (what the theorems
+  about references need);
+* `a.LeExcept op b` — as `Le`, except that the slots listed in `op` (the placeholders of the nodes
+  whose registration is in progress in `a`) may have been overwritten.  `Le` is `LeExcept []`. -/
+
+/-- Bindings persist, pending references are appended; nothing is said about the node vector. -/
+structure PState.LeNU (a b : PState) : Prop where
+  unres : ∃ l, b.unresolved = a.unresolved ++ l
+  names : ∀ k i, a.names.lookup k = some i → b.names.lookup k = some i
+
+/-- `Le` except on the slots `op`. -/
+structure PState.LeExcept (op : List Nat) (a b : PState) : Prop where
+  size : a.nodes.size ≤ b.nodes.size
+  nodes : ∀ i, i < a.nodes.size → i ∉ op → b.nodes[i]? = a.nodes[i]?
+  unres : ∃ l, b.unresolved = a.unresolved ++ l
+  names : ∀ k i, a.names.lookup k = some i → b.names.lookup k = some i
+
+theorem PState.LeNU.refl (a : PState) : a.LeNU a := ⟨⟨[], by simp⟩, fun _ _ h => h⟩
+
+theorem PState.LeNU.trans {a b c : PState} (h1 : a.LeNU b) (h2 : b.LeNU c) : a.LeNU c := by
+  refine ⟨?_, fun k i h => h2.names k i (h1.names k i h)⟩
+  obtain ⟨l1, e1⟩ := h1.unres
+  obtain ⟨l2, e2⟩ := h2.unres
+  exact ⟨l1 ++ l2, by rw [e2, e1, List.append_assoc]⟩
+
+/-- overwriting (or appending) nodes does not disturb `LeNU` -/
+theorem PState.LeNU.nodes {a b : PState} (h : a.LeNU b) (ns : Array PNode) :
+    a.LeNU { b with nodes := ns } := ⟨h.unres, h.names⟩
+
+theorem PState.Le.toLeExcept {a b : PState} (h : a.Le b) : a.LeExcept [] b :=
+  ⟨h.size, fun i hi _ => h.nodes i hi, h.unres, h.names⟩
+
+theorem PState.LeExcept.toLe {a b : PState} (h : a.LeExcept [] b) : a.Le b :=
+  ⟨h.size, fun i hi => h.nodes i hi (by simp), h.unres, h.names⟩
+
+theorem PState.le_iff_leExcept_nil {a b : PState} : a.Le b ↔ a.LeExcept [] b :=
+  ⟨PState.Le.toLeExcept, PState.LeExcept.toLe⟩
+
+theorem PState.LeExcept.toLeNU {op : List Nat} {a b : PState} (h : a.LeExcept op b) : a.LeNU b :=
+  ⟨h.unres, h.names⟩
+
+theorem PState.Le.toLeNU {a b : PState} (h : a.Le b) : a.LeNU b := ⟨h.unres, h.names⟩
+
+theorem PState.LeExcept.mono {op op' : List Nat} {a b : PState} (h : a.LeExcept op b)
+    (hsub : ∀ i, i ∈ op → i ∈ op') : a.LeExcept op' b :=
+  ⟨h.size, fun i hi hn => h.nodes i hi (fun hm => hn (hsub i hm)), h.unres, h.names⟩
+
+theorem PState.LeExcept.trans {o1 o2 : List Nat} {a b c : PState} (h1 : a.LeExcept o1 b)
+    (h2 : b.LeExcept o2 c) : a.LeExcept (o1 ++ o2) c := by
+  refine ⟨Nat.le_trans h1.size h2.size, ?_, (h1.toLeNU.trans h2.toLeNU).unres,
+    fun k i h => h2.names k i (h1.names k i h)⟩
+  intro i hi hn
+  simp only [List.mem_append, not_or] at hn
+  rw [h2.nodes i (Nat.lt_of_lt_of_le hi h1.size) hn.2, h1.nodes i hi hn.1]
+
+/-- completing an enclosing node: its slot `idx` joins the exceptions -/
+theorem PState.LeExcept.set {op : List Nat} {a b : PState} (h : a.LeExcept op b) (idx : Nat)
+    (v : PNode) : a.LeExcept (idx :: op) { b with nodes := b.nodes.set! idx v } := by
+  refine ⟨by simpa using h.size, ?_, h.unres, h.names⟩
+  intro i hi hn
+  simp only [List.mem_cons, not_or] at hn
+  have : idx ≠ i := fun e => hn.1 e.symm
+  simp only [Array.set!_eq_setIfInBounds, Array.getElem?_setIfInBounds_ne this]
+  exact h.nodes i hi hn.2
+
+/-- A state `sm` reached while the BODY of a named / complex node was being registered (i.e.
+    related to the state `st2` at the end of the body) is related to the state `st'` in which the
+    node is completed, except on the node's own slot `st.nodes.size`. -/
+theorem registerObject_inner {fuel t object ofields oitems ovalues enc} {st : PState} {k st'}
+    (h : registerObject (fuel + 1) t object ofields oitems ovalues enc st = .ok (k, st')) :
+    ∃ nk st1 ty st2,
+      nameStep object enc st = .ok (nk, st1) ∧
+      bodyStep fuel t object ofields oitems ovalues enc nk st1 = .ok (ty, st2) ∧
+      ∀ (op : List Nat) (sm : PState), sm.LeExcept op st2 →
+        sm.LeExcept (st.nodes.size :: op) st' := by
+  obtain ⟨nk, st1, ty, st2, lt, hn, hb, -, -, rfl, -⟩ := registerObject_ok h
+  exact ⟨nk, st1, ty, st2, hn, hb, fun op sm hsm => hsm.set _ _⟩
+
+/-- The same for a union: a state reached while the branches were registered. -/
+theorem registerUnion_inner {fuel branches enc} {st : PState} {k st'}
+    (h : registerNode (fuel + 1) (.union branches) enc st = .ok (k, st')) :
+    ∃ keys st2,
+      registerList fuel branches enc
+        { st with nodes := st.nodes.push { type := .null, logical := none } } = .ok (keys, st2) ∧
+      ∀ (op : List Nat) (sm : PState), sm.LeExcept op st2 →
+        sm.LeExcept (st.nodes.size :: op) st' := by
+  simp only [registerNode] at h
+  split at h
+  · cases h
+  · rename_i keys st2 hl
+    simp only [Except.ok.injEq, Prod.mk.injEq] at h
+    obtain ⟨-, rfl⟩ := h
+    exact ⟨keys, st2, hl, fun op sm hsm => hsm.set _ _⟩
+
+/-- Between ANY state inside a registration and its end only `LeNU` is needed to speak about
+    references; it follows from every `LeExcept`, hence from every chain of the steps above and
+    of `register_mono`. -/
+theorem PState.LeNU.of_chain {op : List Nat} {a b c : PState} (h1 : a.LeExcept op b) (h2 : b.LeNU c) :
+    a.LeNU c := h1.toLeNU.trans h2
+
+
 /-! ### late resolution -/
 
 /-- What late resolution makes of a child key, given the final state. -/
